@@ -980,6 +980,70 @@ func (s *c02seedSet) loadGenerated() {
 	gen(dGpos, "gpos5-1lig(spec writer)", func() []byte { return c02gtabWrap(5, 0, c02gpos5(1)) })
 	gen(dGpos, "gpos5-2lig(spec writer)", func() []byte { return c02gtabWrap(5, 0, c02gpos5(2)) })
 	gen(dGpos, "gpos5-3lig(spec writer)", func() []byte { return c02gtabWrap(5, 0, c02gpos5(3)) })
+	// subtables whose LAST part (a class definition or coverage table of about
+	// 66 KB, glyphs in alternating classes) begins at a small offset: every
+	// offset in the file fits 16 bits; whether the same holds for the
+	// library's own layout when the table is written again is the
+	// encoders' business
+	bigClassDef := func() []byte {
+		w := &bw{}
+		w.u16(1, 1, 33000)
+		for i := 0; i < 33000; i++ {
+			w.u16(1 + i%2)
+		}
+		return w.b
+	}
+	bigCoverage := func() []byte {
+		w := &bw{}
+		w.u16(1, 33000)
+		for i := 0; i < 33000; i++ {
+			w.u16(1 + i)
+		}
+		return w.b
+	}
+	for _, tt := range []struct {
+		dec  string
+		base int
+	}{{dGsub, 5}, {dGpos, 7}} {
+		tt := tt
+		gen(tt.dec, fmt.Sprintf("type%d.2-class-definition-66KB-last", tt.base), func() []byte {
+			w := &bw{}
+			w.u16(2, 24, 30, 3, 0, 14, 0) // format, coverage, classDef, 3 rule sets: only class 1 has rules
+			w.u16(1, 4)                   // rule set: one rule
+			w.u16(2, 0, 2)                // rule: two glyphs, no actions, second glyph of class 2
+			w.u16(1, 1, 5)                // coverage: glyph 5
+			w.raw(bigClassDef()...)
+			return c02gtabWrap(tt.base, 0, w.b)
+		})
+		gen(tt.dec, fmt.Sprintf("type%d.1-coverage-66KB-last", tt.base), func() []byte {
+			w := &bw{}
+			w.u16(1, 6, 0) // format, coverage, no rule sets listed
+			w.raw(bigCoverage()...)
+			return c02gtabWrap(tt.base, 0, w.b)
+		})
+		gen(tt.dec, fmt.Sprintf("type%d.2-lookahead-class-definition-66KB-last", tt.base+1), func() []byte {
+			w := &bw{}
+			// format, coverage, backtrack/input/lookahead classDef, 2 rule sets (class 1 has rules)
+			w.u16(2, 30, 36, 44, 52, 2, 0, 16)
+			w.u16(1, 4)             // rule set at 16: one rule
+			w.u16(0, 1, 1, 1, 0)    // rule: no backtrack, one input glyph, one lookahead glyph of class 1, no actions
+			w.u16(1, 1, 5)          // coverage at 30: glyph 5
+			w.u16(2, 1, 7, 9, 1)    // backtrack classes at 36: format 2, one range
+			w.u16(2, 1, 5, 5, 1)    // input classes at 44: glyph 5 is class 1
+			w.raw(bigClassDef()...) // lookahead classes at 52
+			return c02gtabWrap(tt.base+1, 0, w.b)
+		})
+	}
+	gen(dGpos, "type2.2-second-class-definition-66KB-last", func() []byte {
+		w := &bw{}
+		// format, coverage, valueFormat1 (xAdvance), valueFormat2, classDef1, classDef2, class1Count, class2Count
+		w.u16(2, 28, 4, 0, 34, 42, 2, 3)
+		w.u16(0, 0, 0, 10, -20&0xFFFF, 0) // 2 x 3 records of one value
+		w.u16(1, 1, 5)                    // coverage at 28
+		w.u16(2, 1, 5, 5, 1)              // first classes at 34
+		w.raw(bigClassDef()...)           // second classes at 42
+		return c02gtabWrap(2, 0, w.b)
+	})
 	gen(dGpos, "gpos9-extension", func() []byte {
 		// one extension lookup (type 9) wrapping a single-adjustment format 1 subtable
 		sub := (&gtab.Gpos1_1{Cov: c02cov(1, 2), Adjust: &gtab.GposValueRecord{XAdvance: 10}})
